@@ -20,7 +20,7 @@
 (*   portable `-o portable` and what may follow it; non-portable names     *)
 (*   files    command_file lookup: 6 spellings x 8 file sets x trap        *)
 (*   term     termination: 9 contexts x 8 EXIT traps x every program of    *)
-(*            <= 2 (Deep: <= 3 over 11 kinds) commands over 18 kinds       *)
+(*            <= 2 (Deep: <= 3 over 12 kinds) commands over 19 kinds       *)
 (***************************************************************************)
 EXTENDS Startup, Json, IOUtils
 
@@ -67,8 +67,8 @@ WithCtx(s, k) == [s EXCEPT !.opts = Ctx(k).opts, !.ops = Ctx(k).ops, !.tin = Ctx
 
 TermKinds == Kinds \ {"obs", "penv"}
 \* errexit is C10's: here only as one more way to exit
-ErrexitKinds == {"true", "false", "st7", "echo", "exit", "notfound", "sig"}
-DeepKinds == {"true", "st7", "echo", "exit", "exit3", "synerr", "dot", "experr", "redir", "execfail", "sig"}
+ErrexitKinds == {"true", "false", "st7", "echo", "exit", "notfound", "sig", "kill"}
+DeepKinds == {"true", "st7", "echo", "exit", "exit3", "synerr", "dot", "experr", "redir", "execfail", "sig", "kill"}
 TermProgs(errexit) ==
   IF errexit THEN SeqsUpTo(ErrexitKinds, 2) \ {<<>>}
   ELSE (SeqsUpTo(TermKinds, 2) \cup (IF Deep = 1 THEN SeqsUpTo(DeepKinds, 3) ELSE {})) \cup {<<>>}
@@ -125,6 +125,6 @@ Out(s) ==
       plan |-> PlanOf(s), class |-> e.class, alts |-> AsSeq([i \in 1..Len(e.alts) |-> AltJson(e.alts[i])], 1)]
 
 Check == stage = 1 =>
-           /\ Laws(sc) /\ TrapNeutral(sc) /\ InteractiveSurvives(sc)
+           /\ Laws(sc) /\ TrapNeutral(sc) /\ InteractiveSurvives(sc) /\ KilledSilently(sc)
            /\ (Variant = "" => PrintT(ToJson(Out(sc))))
 =============================================================================
